@@ -63,7 +63,7 @@ def famsig(fam, st):
         return f0
     if f0.startswith("const-"):
         k = fam.split("/")[1]
-        return f0 + "/" + (k if k in ("f64", "r64", "c64", "bool", "string") else "typed-literal-kinds")
+        return f0 + "/" + (k if k in ("f64", "r64", "c64", "bool", "string", "ustring") else "typed-literal-kinds")
     if "/" in fam:
         return f0 + ("/f64" if fam.endswith("/f64") else ("/r64" if fam.endswith("/r64") else "/typed-literal-kinds"))
     return fam
@@ -165,6 +165,7 @@ def const_lit(kind, fields):
     if kind == "c64": return f"{fields[0]}+{fields[1]}i"
     if kind == "r64": return f"{fields[0]}/{fields[1]}"
     if kind == "bool": return "true" if (fields[0] // 10) % 2 == 1 else "false"
+    if kind == "ustring": return f'"h\u00e9{fields[0]}w\u00f6"'
     if kind == "string": return f'"s{fields[0]}"'
     if kind == "f64": return f"{fields[0]}.5"
     return render.scalar_lit(('num', kind, F(fields[0])))
@@ -178,7 +179,7 @@ def const_programs(rep):
     for cs in sorted(t.cases, key=lambda c: (c["cont"], c["kind"])):
         k, ct = cs["kind"], cs["cont"]
         L = [const_lit(k, e) for e in cs["elems"]]
-        kk = {"c64": "c64", "r64": "r64"}.get(k, k)
+        kk = {"ustring": "string"}.get(k, k)
         text = {"scalar": lambda: L[0], "row": lambda: f"[{L[0]} {L[1]} {L[2]}]", "col": lambda: f"[{L[0]}; {L[1]}; {L[2]}]",
                 "mat": lambda: f"[{L[0]} {L[1]}; {L[2]} {L[3]}]", "set": lambda: "{" + ", ".join(L) + "}", "tuple": lambda: f"({L[0]}, {L[1]})",
                 "record": lambda: "{a: " + L[0] + ", b: " + L[1] + "}", "table": lambda: f"| a<{kk}> b<{kk}> | {L[0]} {L[1]} | {L[2]} {L[3]} |",
